@@ -1,5 +1,5 @@
 (* FTextFacts.v — theorems about the text layer of build_fortran_definition (FText.v). *)
-From Coq Require Import Ascii String List Bool Arith Lia.
+From Coq Require Import Ascii String List Bool Arith Lia ZArith DecimalString.
 Import ListNotations.
 Require Import FText.
 Open Scope nat_scope.
@@ -336,4 +336,77 @@ Proof.
   - nb_tac.
   - reflexivity.
   - vm_compute. reflexivity.
+Qed.
+
+(* ================================================================== the index text: t -> index, t-k -> index-k, t+k -> index+k *)
+Lemma replace_t_no_t (l : str) : (forall c, In c l -> ascii_eqb c "t" = false) -> replace_t l = l.
+Proof.
+  induction l as [|c r IH]; intros H; cbn [replace_t]; [reflexivity|].
+  rewrite (H c (or_introl eq_refl)). f_equal. apply IH. intros x Hx. apply H. right. exact Hx.
+Qed.
+
+Lemma uint_digits (u : Decimal.uint) : forall c, In c (lit (NilEmpty.string_of_uint u)) -> is_digit c = true.
+Proof.
+  induction u as [|u IH|u IH|u IH|u IH|u IH|u IH|u IH|u IH|u IH|u IH]; intros c H; cbn [NilEmpty.string_of_uint lit list_ascii_of_string] in H;
+    try (destruct H as [<-|H]; [reflexivity|apply IH; exact H]). destruct H.
+Qed.
+
+Lemma dec_digits n : forall c, In c (dec n) -> is_digit c = true.
+Proof.
+  unfold dec, NilZero.string_of_uint. intros c H.
+  destruct (Nat.to_uint n) as [|u|u|u|u|u|u|u|u|u|u];
+    [cbn in H; destruct H as [<-|[]]; reflexivity
+    |exact (uint_digits (Decimal.D0 u) c H)|exact (uint_digits (Decimal.D1 u) c H)|exact (uint_digits (Decimal.D2 u) c H)
+    |exact (uint_digits (Decimal.D3 u) c H)|exact (uint_digits (Decimal.D4 u) c H)|exact (uint_digits (Decimal.D5 u) c H)
+    |exact (uint_digits (Decimal.D6 u) c H)|exact (uint_digits (Decimal.D7 u) c H)|exact (uint_digits (Decimal.D8 u) c H)
+    |exact (uint_digits (Decimal.D9 u) c H)].
+Qed.
+
+Lemma digit_not_t c : is_digit c = true -> ascii_eqb c "t" = false.
+Proof.
+  unfold is_digit, ascii_eqb, code_of. intros H. apply andb_true_iff in H as [H1 H2].
+  apply Nat.leb_le in H2. apply Nat.eqb_neq. change (nat_of_ascii "t") with 116. lia.
+Qed.
+
+Lemma replace_t_dec n : replace_t (dec n) = dec n.
+Proof. apply replace_t_no_t. intros c H. apply digit_not_t. apply (dec_digits n). exact H. Qed.
+
+(* str.replace('t', 'index') on the index text of a term at lag / lead k *)
+Theorem replace_t_idx_text k : replace_t (idx_text k) = f_idx_text k.
+Proof.
+  destruct k as [|q|q]; cbn [idx_text f_idx_text].
+  - reflexivity.
+  - change (lit "t+" ++ dec (Pos.to_nat q)) with ("t"%char :: "+"%char :: dec (Pos.to_nat q)).
+    cbn [replace_t]. change (ascii_eqb "t" "t") with true. change (ascii_eqb "+" "t") with false. cbv iota.
+    rewrite replace_t_dec. reflexivity.
+  - change (lit "t-" ++ dec (Pos.to_nat q)) with ("t"%char :: "-"%char :: dec (Pos.to_nat q)).
+    cbn [replace_t]. change (ascii_eqb "t" "t") with true. change (ascii_eqb "-" "t") with false. cbv iota.
+    rewrite replace_t_dec. reflexivity.
+Qed.
+
+(* THE TERM: `NAME[t+k]`, NAME at position i of the Python class's NAMES, is replaced by `solved_values(i+1, index+k)` *)
+Theorem term_rewritten endo exo par err x i k :
+  let names := all_names endo exo par err in
+  NoDup names -> nth_error names i = Some x ->
+  rewrite_step names (Some (render_term x (idx_text k))) (0, length (render_term x (idx_text k)), x, idx_text k)
+  = Some (lit "solved_values(" ++ dec (S i) ++ lit ", " ++ f_idx_text k ++ lit ")").
+Proof.
+  intros names Hnd Hx. unfold rewrite_step.
+  destruct (numbering_matches_names endo exo par err x i Hnd) as [[_ Hn] _]. fold names in Hn. rewrite (Hn Hx).
+  unfold splice. cbn [firstn]. rewrite skipn_all. rewrite app_nil_r. cbn [app]. unfold term_f. rewrite replace_t_idx_text. reflexivity.
+Qed.
+
+(* the index text of a term is index text in the sense of wf_segs (no closing bracket, no line feed) *)
+Lemma idx_text_ok k : idx_ok (idx_text k).
+Proof.
+  assert (Hd : forall n c, In c (dec n) -> ascii_eqb c "]" = false /\ (code_of c =? 10) = false).
+  { intros n c H. pose proof (dec_digits n c H) as Hc. unfold is_digit in Hc. apply andb_true_iff in Hc as [H1 H2].
+    apply Nat.leb_le in H1. apply Nat.leb_le in H2. unfold ascii_eqb. change (code_of "]") with 93.
+    split; apply Nat.eqb_neq; lia. }
+  destruct k as [|q|q]; intros c H; cbn [idx_text] in H.
+  - destruct H as [<-|[]]. split; reflexivity.
+  - change (lit "t+" ++ dec (Pos.to_nat q)) with ("t"%char :: "+"%char :: dec (Pos.to_nat q)) in H.
+    destruct H as [<-|[<-|H]]; [split; reflexivity|split; reflexivity|apply (Hd _ _ H)].
+  - change (lit "t-" ++ dec (Pos.to_nat q)) with ("t"%char :: "-"%char :: dec (Pos.to_nat q)) in H.
+    destruct H as [<-|[<-|H]]; [split; reflexivity|split; reflexivity|apply (Hd _ _ H)].
 Qed.
